@@ -12,6 +12,51 @@ thread_local! {
     pub static LAST_PANIC: RefCell<Option<String>> = const { RefCell::new(None) };
 }
 
+/// setup_sender / seal / setup_receiver / open of one small message (allocating forms where compiled in)
+pub fn roundtrip(skr: &[u8], pkr: &[u8], rng: &[u8], kem: u16, kdf: u16, aead: u16) -> String {
+    let Some(su) = suite::suite_ops(kem, kdf, aead) else { return "nosuite".into() };
+    let mut r = ScriptRng::new(rng.to_vec());
+    let m = ModeArgs::default();
+    let Ok((enc, mut cs)) = su.setup_s(&m, pkr, b"", &mut r) else { return "setup_s_failed".into() };
+    let Ok(mut cr) = su.setup_r(&m, skr, &enc, b"") else { return "setup_r_failed".into() };
+    if aead == 0xFFFF {
+        let (mut a, mut b) = ([0u8; 16], [1u8; 16]);
+        return match (cs.export(b"n", &mut a), cr.export(b"n", &mut b)) {
+            (Ok(()), Ok(())) if a == b => "ok".into(),
+            _ => "export_differs".into(),
+        };
+    }
+    match cs.seal_alloc(b"teardown", b"") {
+        Some(Ok(full)) => match cr.open_alloc(&full, b"") {
+            Some(Ok(pt)) if pt == b"teardown" => "ok".into(),
+            Some(Ok(_)) => "wrong_plaintext".into(),
+            Some(Err(e)) => format!("open_err:{}", err_name(&e)),
+            None => "noalloc".into(),
+        },
+        Some(Err(_)) => "seal_failed".into(),
+        None => {
+            let mut buf = *b"teardown";
+            let Ok(tag) = cs.seal_inplace(&mut buf, b"") else { return "seal_failed".into() };
+            match cr.open_inplace(&mut buf, b"", &tag) {
+                Ok(()) if &buf == b"teardown" => "ok".into(),
+                Ok(()) => "wrong_plaintext".into(),
+                Err(e) => format!("open_err:{}", err_name(&e.0)),
+            }
+        }
+    }
+}
+
+/// What a caller-supplied RNG may legitimately do while the library waits for its bytes: use the library.
+pub fn nested_use(kem: u16, kdf: u16, aead: u16, n: u8) -> String {
+    let r = std::panic::catch_unwind(|| {
+        let Some(k) = suite::kem_ops(kem) else { return "nokem".to_string() };
+        let mut inner = ScriptRng::new(vec![0x40 | n; 80]);
+        let (skr, pkr) = k.gen_keypair(&mut inner);
+        roundtrip(&skr, &pkr, &[0x80 | n; 80], kem, kdf, aead)
+    });
+    r.unwrap_or_else(|_| "nested_panic".into())
+}
+
 pub fn install_panic_hook() {
     std::panic::set_hook(Box::new(|info| {
         let msg = if let Some(s) = info.payload().downcast_ref::<&str>() {
@@ -257,8 +302,11 @@ impl Session {
             }
             "gen_keypair" => {
                 let mut rng = ScriptRng::new(a.b("rng").to_vec());
+                if a.u("reenter") == 1 {
+                    rng.reenter = Some(self.ids);
+                }
                 let (sk, pk) = self.kem.as_ref().unwrap().gen_keypair(&mut rng);
-                f.ok().kv("sk", out(&sk)).kv("pk", out(&pk)).kv("rngd", rng.log()).kv("over", rng.over);
+                f.ok().kv("sk", out(&sk)).kv("pk", out(&pk)).kv("rngd", rng.log()).kv("nested", if rng.nested.is_empty() { "-".to_string() } else { rng.nested.join(",") }).kv("over", rng.over);
                 setreg(&mut self.regs, &outname, "sk", &sk);
                 setreg(&mut self.regs, &outname, "pk", &pk);
             }
@@ -314,6 +362,9 @@ impl Session {
             },
             "encap" => {
                 let mut rng = ScriptRng::new(a.b("rng").to_vec());
+                if a.u("reenter") == 1 {
+                    rng.reenter = Some(self.ids);
+                }
                 let id = match (a.opt_b("sks"), a.opt_b("pks")) {
                     (Some(s), Some(p)) => Some((s, p)),
                     _ => None,
@@ -332,7 +383,7 @@ impl Session {
                         f.fail(&e);
                     }
                 }
-                f.kv("rngd", rng.log()).kv("over", rng.over);
+                f.kv("rngd", rng.log()).kv("nested", if rng.nested.is_empty() { "-".to_string() } else { rng.nested.join(",") }).kv("over", rng.over);
             }
             "decap" => {
                 let r = self.kem.as_ref().unwrap().decap(
@@ -356,6 +407,9 @@ impl Session {
             }
             "setup_s" => {
                 let mut rng = ScriptRng::new(a.b("rng").to_vec());
+                if a.u("reenter") == 1 {
+                    rng.reenter = Some(self.ids);
+                }
                 let ov = self.suite_for(a);
                 let su = ov.as_ref().unwrap_or_else(|| self.suite.as_ref().unwrap());
                 let r = su.setup_s(&a.mode(), a.b("pkr"), a.b("info"), &mut rng);
@@ -374,7 +428,7 @@ impl Session {
                         f.fail(&e);
                     }
                 }
-                f.kv("rngd", rng.log()).kv("over", rng.over);
+                f.kv("rngd", rng.log()).kv("nested", if rng.nested.is_empty() { "-".to_string() } else { rng.nested.join(",") }).kv("over", rng.over);
             }
             "setup_r" => {
                 let ov = self.suite_for(a);
@@ -711,7 +765,7 @@ impl Session {
                 struct AtExit(Vec<u8>, Vec<u8>, Vec<u8>, u16, u16, u16, std::sync::mpsc::Sender<String>);
                 impl Drop for AtExit {
                     fn drop(&mut self) {
-                        let r = std::panic::catch_unwind(std::panic::AssertUnwindSafe(|| teardown_roundtrip(&self.0, &self.1, &self.2, self.3, self.4, self.5)));
+                        let r = std::panic::catch_unwind(std::panic::AssertUnwindSafe(|| roundtrip(&self.0, &self.1, &self.2, self.3, self.4, self.5)));
                         let _ = self.6.send(match r {
                             Ok(v) => v,
                             Err(_) => "panic".to_string(),
@@ -721,23 +775,6 @@ impl Session {
                 thread_local! {
                     static EXIT: std::cell::RefCell<Option<AtExit>> = const { std::cell::RefCell::new(None) };
                 }
-                fn teardown_roundtrip(skr: &[u8], pkr: &[u8], rng: &[u8], kem: u16, kdf: u16, aead: u16) -> String {
-                    let Some(su) = suite::suite_ops(kem, kdf, aead) else { return "nosuite".into() };
-                    let mut r = ScriptRng::new(rng.to_vec());
-                    let m = ModeArgs::default();
-                    let Ok((enc, mut cs)) = su.setup_s(&m, pkr, b"", &mut r) else { return "setup_s_failed".into() };
-                    let Ok(mut cr) = su.setup_r(&m, skr, &enc, b"") else { return "setup_r_failed".into() };
-                    let full = match cs.seal_alloc(b"teardown", b"") {
-                        Some(Ok(f)) => f,
-                        _ => return "seal_failed".into(),
-                    };
-                    match cr.open_alloc(&full, b"") {
-                        Some(Ok(pt)) if pt == b"teardown" => "ok".into(),
-                        Some(Ok(_)) => "wrong_plaintext".into(),
-                        Some(Err(e)) => format!("open_err:{}", err_name(&e)),
-                        None => "noalloc".into(),
-                    }
-                }
                 let (tx, rx) = std::sync::mpsc::channel::<String>();
                 let (skr, pkr, rng) = (a.b("skr").to_vec(), a.b("pkr").to_vec(), a.b("rng").to_vec());
                 let ids = self.ids;
@@ -745,7 +782,7 @@ impl Session {
                     // our thread-local first ...
                     EXIT.with(|e| *e.borrow_mut() = Some(AtExit(skr.clone(), pkr.clone(), rng.clone(), ids.0, ids.1, ids.2, tx)));
                     // ... then the library is used in the thread body (this is when it would create its own)
-                    teardown_roundtrip(&skr, &pkr, &rng, ids.0, ids.1, ids.2)
+                    roundtrip(&skr, &pkr, &rng, ids.0, ids.1, ids.2)
                 });
                 let body = h.join().unwrap_or_else(|_| "thread_panicked".into());
                 let dtor = rx.recv_timeout(std::time::Duration::from_secs(60)).unwrap_or_else(|_| "no_report".into());
@@ -1137,6 +1174,9 @@ impl Session {
             }
             "ss_seal" => {
                 let mut rng = ScriptRng::new(a.b("rng").to_vec());
+                if a.u("reenter") == 1 {
+                    rng.reenter = Some(self.ids);
+                }
                 let inplace = a.s("api") == "inplace";
                 let r = self.suite.as_ref().unwrap().ss_seal(
                     &a.mode(),
@@ -1167,7 +1207,7 @@ impl Session {
                         }
                     }
                 }
-                f.kv("rngd", rng.log()).kv("over", rng.over);
+                f.kv("rngd", rng.log()).kv("nested", if rng.nested.is_empty() { "-".to_string() } else { rng.nested.join(",") }).kv("over", rng.over);
             }
             "ss_open" => {
                 let inplace = a.s("api") == "inplace";
